@@ -10,8 +10,8 @@ LAYOUTS = ("canon", "tight", "wide")
 
 
 def tlc_family(chk, module, tier, *, cfg=None, simulate=None, depth=None, timeout=900,
-               defines=None, label=None, workers=None):
-    d = {"TIER": tier}
+               defines=None, label=None, workers=None, layouts=LAYOUTS):
+    d = {"TIER": tier, "LYS": "{" + ", ".join('"%s"' % l for l in layouts) + "}"}
     d.update(defines or {})
     res = common.run_tlc(module, cfg or (module + ".cfg"), defines=d, simulate=simulate,
                          depth=depth, timeout=timeout, workers=workers)
